@@ -1,0 +1,37 @@
+//go:build verif
+
+// Contracts for package zenodb (comment-only; read by /verif/bin/zv, never compiled into the product).
+package zenodb
+
+// C03/C15: stored columns are mapped to requested columns by field identity (Field.Equals = name + expression text):
+// result[i] is the least index o with inFields[i].Equals(outFields[o]), or -1 when there is none.
+//@ func outIdxsFor
+//@   modifies *
+//@   ensures length: len(result) == len(inFields)
+//@   ensures unmapped: forall i in 0..len(inFields) :: result[i] == -1 ==> (forall o in 0..len(outFields) :: !old(inFields[i]).Equals(old(outFields[o])))
+//@   ensures in_range: forall i in 0..len(inFields) :: result[i] != -1 ==> 0 <= result[i] && result[i] < len(outFields)
+//@   ensures t3_mapped: forall i in 0..len(inFields) :: result[i] != -1 ==> old(inFields[i]).Equals(old(outFields[result[i]]))
+//@   ensures first_match: forall i in 0..len(inFields) :: forall o in 0..len(outFields) :: o < result[i] ==> !old(inFields[i]).Equals(old(outFields[o]))
+//@   ensures fresh_result: fresh(result)
+//@   loop 0 invariant len_is: len(outIdxs) == $i && fresh(outIdxs) && obj(outIdxs) != 0 && 0 <= $i && $i <= len(inFields)
+//@   loop 0 invariant in_unchanged: forall q in 0..len(inFields) :: inFields[q] == old(inFields[q])
+//@   loop 0 invariant out_unchanged: forall q in 0..len(outFields) :: outFields[q] == old(outFields[q])
+//@   loop 0 invariant done_neg: forall i in 0..$i :: outIdxs[i] == -1 ==> (forall o in 0..len(outFields) :: !old(inFields[i]).Equals(old(outFields[o])))
+//@   loop 0 invariant done_rng: forall i in 0..$i :: outIdxs[i] != -1 ==> 0 <= outIdxs[i] && outIdxs[i] < len(outFields)
+//@   loop 0 invariant t3_done_pos: forall i in 0..$i :: outIdxs[i] != -1 ==> old(inFields[i]).Equals(old(outFields[outIdxs[i]]))
+//@   loop 0 invariant done_first: forall i in 0..$i :: forall o in 0..len(outFields) :: o < outIdxs[i] ==> !old(inFields[i]).Equals(old(outFields[o]))
+//@   loop 1 invariant none_yet: forall o in 0..$i :: !inField.Equals(old(outFields[o]))
+//@   loop 1 invariant bounds: 0 <= $i && $i <= len(outFields)
+//@   nopanic own
+
+// C10: every point belongs to exactly one partition: partitionFor returns a partition number in [0, NumPartitions).
+//@ func (*DB).partitionFor
+//@   requires db != nil && h != nil && db.opts != nil && db.opts.NumPartitions > 0
+//@   modifies *
+//@   ensures in_range: 0 <= result && result < old(db.opts.NumPartitions)
+
+//@ func (*DB).inPartition
+//@   requires db != nil && h != nil && db.opts != nil && db.opts.NumPartitions > 0
+//@   modifies *
+//@   capture pf Int = result 0 of call partitionFor
+//@   ensures iff: result == (pf == partition)
